@@ -21,7 +21,13 @@ holds after every history of admit/access/remove/evict/clear calls):
 * `P_untrack_only_by_nomination` — access/admit/remove change the tracked set only as the trait
   contract allows;
 * `P_readmit_updates_cost` — after `admit k c` the recorded cost of `k` is `c` (once);
-* LRU / FIFO order theorems against history-only specifications of recency / insertion time.
+* `P_tracks_only_on_admit`, `P_no_renomination` — only `admit x` starts tracking `x`, hence a key
+  nominated by `evict` is never nominated again without an `admit` of it in between;
+* LRU / FIFO order theorems against history-only specifications of recency / insertion time
+  (`lru_evicts_least_recent`, `fifo_evicts_in_insertion_order`).
+Status per policy: LRU, SIEVE, Random full; FIFO, Clock, SLRU full except the re-admit cost update
+(F9c: `_partial` + witness); ARC: evict sufficiency and admit-untracking `_partial` (F9a, two
+witnesses); TinyLFU: evict sufficiency `_partial` (F9b, witness), everything else full.
 Clauses that are false of the code have a `C14_fails_<finding>_<policy>` witness and a
 `_partial` theorem.
 -/
